@@ -1373,6 +1373,20 @@ class CodedKern(Kern):
         self._opencl_options = {'local_size': 64, 'queue_number': 1}
         self.arg_descriptors = call.ktype.arg_descriptors
 
+    def _refine_copy(self, other):
+        ''' Refine the object attributes when a shallow copy is not the most
+        appropriate operation during a call to the copy() method.
+
+        :param other: object we are copying from.
+        :type other: :py:class:`psyclone.psyGen.CodedKern`
+
+        '''
+        super()._refine_copy(other)
+        # The options are updated in place by set_opencl_options() so the
+        # copy needs its own dictionary.
+        # pylint: disable-next=protected-access
+        self._opencl_options = dict(other._opencl_options)
+
     def get_kernel_schedule(self):
         '''
         Returns a PSyIR Schedule representing the kernel code. The Schedule
